@@ -868,31 +868,36 @@ def _dip_case(ctx, lines, split=0):
     return res, bad
 
 
-def _dip_explore(ctx, prefix, maxlen, sh):
-    """DFS: a program is extended only if it parsed (a failed program is a leaf)"""
-    splits = [0] if ctx != "split" else list(range(1, len(prefix)))
-    ok_any = False
-    for sp in splits:
-        res, bad = _dip_case(ctx, prefix, sp)
-        sh.evaluations += 1
-        sh.traces += 1
-        sh.transitions += 1
-        sh.count("dip-%s-%s" % (ctx, res))
-        exp = _dip_expect(prefix, ctx)
-        sh.count("dip-expected-%s-observed-%s" % ({True: "ok", False: "fault", None: "undemanded"}[exp], res))
-        if len(prefix) >= 2 and any(ln in ("UL", "UM", "UV", "UL2") for ln in prefix):
-            sh.nontrivial += 1
-        if bad is not None:
-            _report(sh, bad)
-        if len(sh.samples) < 1 and len(prefix) >= 3 and res == "ok":
-            sh.sample(dict(route="dip", ctx=ctx, lines=list(prefix)))
-        ok_any = ok_any or res == "ok"
-    if ctx == "split" and len(prefix) < 2:
-        ok_any = True
-    if ok_any and len(prefix) < maxlen:
-        for ln in LNAMES:
-            if ln not in prefix:
-                _dip_explore(ctx, prefix + [ln], maxlen, sh)
+def _dip_explore(ctx, first, maxlen, sh):
+    """BFS over line programs starting with `first`: a program is extended only if it parsed (a failed program is a
+    leaf); shorter programs first, so the first record of a failure class is a shortest one"""
+    frontier = [list(first)]
+    while frontier:
+        nxt = []
+        for prefix in frontier:
+            splits = [0] if ctx != "split" else list(range(1, len(prefix)))
+            ok_any = False
+            for sp in splits:
+                res, bad = _dip_case(ctx, prefix, sp)
+                sh.evaluations += 1
+                sh.traces += 1
+                sh.transitions += 1
+                sh.max_depth = max(sh.max_depth, len(prefix))
+                sh.count("dip-%s-%s" % (ctx, res))
+                exp = _dip_expect(prefix, ctx)
+                sh.count("dip-expected-%s-observed-%s" % ({True: "ok", False: "fault", None: "undemanded"}[exp], res))
+                if len(prefix) >= 2 and any(ln in ("UL", "UM", "UV", "UL2") for ln in prefix):
+                    sh.nontrivial += 1
+                if bad is not None:
+                    _report(sh, bad)
+                if len(sh.samples) < 1 and len(prefix) >= 3 and res == "ok":
+                    sh.sample(dict(route="dip", ctx=ctx, lines=list(prefix)))
+                ok_any = ok_any or res == "ok"
+            if ctx == "split" and len(prefix) < 2:
+                ok_any = True
+            if ok_any and len(prefix) < maxlen:
+                nxt.extend(prefix + [ln] for ln in LNAMES if ln not in prefix)
+        frontier = nxt
 
 
 # ----------------------------------------------------------------------------------------------- plan / shards
